@@ -93,13 +93,17 @@ func (ms *Modules) Parse(data, name string) error {
 		return err
 	}
 	for _, s := range ss {
-		n, err := buildASTWithTypeDict(s, ms.typeDict)
+		// Typedefs are collected in a scratch dictionary so that a
+		// rejected module leaves nothing behind.
+		td := newTypeDictionary()
+		n, err := buildASTWithTypeDict(s, td)
 		if err != nil {
 			return err
 		}
 		if err := ms.add(n); err != nil {
 			return err
 		}
+		ms.typeDict.merge(td)
 	}
 	return nil
 }
